@@ -3,6 +3,7 @@ package mon
 import (
 	"fmt"
 	"sort"
+	"strings"
 	"sync"
 	"sync/atomic"
 
@@ -176,6 +177,7 @@ func checkReject(w *W, st *c11state, v2 bool, level int, s string, m *strMeta, n
 			w.Violate(Violation{Monitor: "C11", Check: "an input with exactly one kind of defect reports that kind", Case: c, Observed: matches[0], Expected: spec.Defect(m.Sharp).String()})
 		}
 		w.DistinctS("sharp_inputs", s+k.String())
+		w.Count("sharp " + ver3or2(v2) + " " + spec.Defect(m.Sharp).String() + " @ " + m.SharpMetric)
 	}
 	ver := "v3"
 	if v2 {
@@ -226,6 +228,17 @@ func runC11(r *Run) int {
 	r.mu.Unlock()
 	sort.Strings(keys)
 	r.Extra("edit_class_x_sentinel_matrix", matrix)
+	// per metric x class coverage of the sharp catalogue
+	r.mu.Lock()
+	perMetric := map[string]int64{}
+	for k, v := range r.counters {
+		if strings.HasPrefix(k, "sharp v") {
+			perMetric[strings.TrimPrefix(k, "sharp ")] = v
+			delete(r.counters, k)
+		}
+	}
+	r.mu.Unlock()
+	r.Extra("single_defect_inputs_per_class_and_metric", perMetric)
 	if r.Counter("sharp_input_accepted") > 0 {
 		r.Note("%d single-defect inputs were accepted by a decoder (acceptance is judged by C07/C08)", r.Counter("sharp_input_accepted"))
 	}
@@ -251,6 +264,13 @@ func replayC11(r *Run, c Case) {
 	_, err, _ := lib.Decode(k, s, c.NilRcv)
 	_, d := refParse(k.V2(), s, k.Level())
 	fmt.Printf("replay %s %q: reported %s; defects present %v\n", c.Kind, clip(s, 300), lib.ErrClass(err), d.Names())
+}
+
+func ver3or2(v2 bool) string {
+	if v2 {
+		return "v2"
+	}
+	return "v3"
 }
 
 // hostileLong returns a few very long inputs (n controls how many megabytes).
